@@ -1105,6 +1105,22 @@ pub fn random_scen(r: &mut Rng, family: usize) -> Scen {
     20 => {
       // several subscribers on one share_threads(): emissions race with
       // subscribers leaving and joining (the ref-count teardown path)
+      if r.chance(1, 5) {
+        // nobody subscribed yet: the threads race for the very first subscription (connect path)
+        let nt = 2 + r.below(2);
+        let threads: Vec<Vec<TOp>> = (0..nt)
+          .map(|t| {
+            let mut v = vec![TOp::Subscribe];
+            // (nobody leaves here: re-joining after the count dropped to zero is unspecified)
+            let _ = t;
+            for _ in 0..r.below(3) {
+              v.push(TOp::Next(0));
+            }
+            v
+          })
+          .collect();
+        return Scen { name: "share_threads[multi]", kind: Kind::Shared, n_hot: 1, initial_subs: 0, threads, workers: 0, worker_spins: 0 };
+      }
       let nt = 2 + r.below(2);
       let initial = 2 + r.below(2);
       // re-joining after the subscriber count dropped to zero is unspecified:
